@@ -152,6 +152,7 @@ package rlwe
 //@ afunc Element.Resize
 //@   trusted the element loop and the append are not executed: afterwards the element has degree+1 components, each with level+1 rows; the components it GAINS are new polynomials, i.e. the zero element (in every domain)
 //@   setlen op.Value = degree + 1 ; zero ; rows level + 1
+//@   rowsafe 0 <= level
 
 // public-key encryption without auxiliary modulus: (u*pk0 + e0, u*pk1 + e1) with two distinct error draws
 //@ afunc Encryptor.encryptZeroPkNoP
